@@ -2,7 +2,7 @@ SPEC = dict(
     id="C09",
     bin="c09",
     coq_dir="C09",
-    coq_targets=["C09/Proofs.vo", "C09/Proofs2.vo", "C09/Examples.vo"],
+    coq_targets=["C09/Proofs.vo", "C09/Proofs2.vo", "C09/Proofs3.vo", "C09/Examples.vo"],
     allowed_axioms=[],
     level_text=("Unbounded Coq theorems (no axioms) about an executable model of the glyf/loca writer (write-fonts "
                 "SimpleGlyph/CompositeGlyph/GlyfLocaBuilder/Loca) and reader (read-fonts Glyph::read, SimpleGlyph::points, "
@@ -13,14 +13,14 @@ SPEC = dict(
                 "contour count, bbox, end points, instructions, points and on-curve flags, and even length; LocaFormat short "
                 "=> all offsets even, <= 0x1FFFE and exact under (off>>1) as u16; both loca formats return the offsets "
                 "written; glyph i of the builder's (glyf, loca) is the i-th added glyph's own encoding, empty glyphs get equal "
-                "offsets. The model is tied to the code on every run: ~3.8k boundary-rich cases (simple and composite glyphs, "
+                "offsets; every composite glyph (all anchor/transform forms, user flags, instructions) reads back exactly "
+                "(ComponentIter, count_and_instructions). The model is tied to the code on every run: ~3.8k boundary-rich cases (simple and composite glyphs, "
                 "mutated byte strings, Loca::new offsets around 0x1FFFE/0x20000, builder sequences incl. totals 0x1FFFC..0x20004) "
                 "are run through the real write-fonts/read-fonts code and through the model with vm_compute, byte-exact. "
-                "Composite round trip, the write-fonts BezPath front end and unscaled skrifa drawing are checked on the "
-                "implementation only (oracle), not proved — partial for those clauses."),
+                "read_points_fast, the write-fonts BezPath front end and unscaled skrifa "
+                "drawing are checked on the implementation only (oracle), not proved — partial for those clauses."),
     level_note=("Trusted: Coq kernel; the hand-written model coq/C09/Model.v (its agreement with write-fonts/read-fonts is "
-                "checked case by case, not proved); the harness generators. The composite writer/reader is modelled and "
-                "corresponds on every case but has no Coq round-trip theorem; path geometry (from_bezpath elision + skrifa "
+                "checked case by case, not proved); the harness generators. Path geometry (from_bezpath elision + skrifa "
                 "to_path) has neither model nor theorem, only the implementation oracle."),
     technique="Coq proof (induction over the RLE state machine and the readers, lia, exhaustive byte sweeps by vm_compute) over a hand-written Gallina model + vm_compute correspondence with write-fonts/read-fonts + implementation-only oracle incl. skrifa drawing",
     modelled=["write-fonts/src/tables/glyf/simple.rs: compute_point_deltas/flag_and_delta, RepeatableFlag::iter_from_flags + write_into (debug_assert), SimpleGlyph::write_into (asserts, `cur as u16 - 1`, padding), FromObjRef contour splitting",
@@ -28,8 +28,7 @@ SPEC = dict(
               "write-fonts/src/tables/glyf/glyf_loca_builder.rs: add_glyph (validate, write, raw_loca), build; write-fonts/src/tables/loca.rs: LocaFormat::new, Loca::write_into; TableWriter::pad_to_2byte_aligned",
               "read-fonts generated_glyf.rs: Glyph::read, SimpleGlyph::read and getters, CompositeGlyph::read; read-fonts/src/tables/glyf.rs: resolve_coords_len, points_impl/PointIter (advance_flags, advance_points), ComponentIter, ComponentGlyphIdFlagsIter/count_and_instructions",
               "read-fonts/src/tables/loca.rs: Loca::read, get_raw, get_glyf"],
-    not_covered=["composite_roundtrip: no Coq theorem (model + byte-exact correspondence on ~670 composites covering every anchor/transform form, and the implementation oracle)",
-                 "SimpleGlyph::read_points_fast (the reader skrifa uses): implementation oracle only (compared with points() on every accepted glyph)",
+    not_covered=["SimpleGlyph::read_points_fast (the reader skrifa uses): implementation oracle only (compared with points() on every accepted glyph)",
                  "simple_glyphs_from_kurbo / InterpolatableContourBuilder (BezPath front end, implied on-curve elision) and skrifa path::to_path: implementation oracle only (random integer line/quad paths drawn unscaled on a FontBuilder font and compared segment by segment)",
                  "flags_rle_shortest minimality among ALL flag encodings is not proved (only the exact length formula per run and the implementation-side comparison with an independently computed canonical length)",
                  "contour-count assert (>= 32767 contours) and 65535/65536-point glyphs: implementation only (too large for shards)"],
